@@ -76,7 +76,7 @@ class PopenSpawn(SpawnBase):
 
         if timeout == -1:
             timeout = self.timeout
-        elif timeout is None:
+        if timeout is None:
             timeout = 1e6
 
         t0 = time.time()
